@@ -5,6 +5,7 @@
 // of addresses RLBox touched in the target region is observed too.
 #include "../sim/world_common.hpp"
 #include "../sim/mmu.hpp"
+#include "../sim/aligned_new.hpp"
 #include <memory>
 
 using namespace sim;
@@ -23,7 +24,8 @@ extern "C" void* __wrap_malloc(size_t n)
       g_ctx->fired("F5_host_malloc_null");
     return nullptr;
   }
-  return __real_malloc(n);
+  (void)&__real_malloc;
+  return sim_aligned_alloc(n); // see sim/aligned_new.hpp
 }
 
 extern "C" void __real_free(void*);
